@@ -23,8 +23,12 @@ class Scenario:
     def __init__(self, name, setup, threads, finals, storage=b"s"):
         self.name, self.setup, self.threads, self.finals, self.storage = name, setup, threads, finals, storage
 
+    events = False
+
     def text(self, mode_line):
         out = [mode_line]
+        if self.events:
+            out.append("events")
         out.append("setup create " + hx(self.storage))
         for k, v in self.setup:
             out.append("setup put %s %s %s 1 0" % (hx(self.storage), hx(k), hx(v)))
@@ -242,6 +246,11 @@ def check_run(r, scen, want=("lin", "null", "scan", "deadlock", "coherent")):
     if r.rc != 0 or not r.done:
         bad.append(("crash", "driver exit code %s" % r.rc))
         return bad
+    if "lockorder" in want:
+        ne, cyc = lock_graph_check(r.out)
+        r.lock_edges = ne
+        if cyc:
+            bad.append(("lockorder", "lock-order inversion (cycle in the held->awaited graph): %s" % " -> ".join(cyc)))
     ops, pending = parse_history(r)
     if pending:
         bad.append(("incomplete", "operations did not return: %s" % pending))
@@ -435,3 +444,301 @@ def replay_text(scen_text, schedule):
     lines[0] = "mode replay maxsteps 400000"
     lines.insert(1, "replay " + " ".join(str(t) for t in schedule))
     return "\n".join(lines)
+
+
+# ------------------------------------------------------------------ model tie (BorderDefs)
+def knum(k):
+    """key (<= 8 bytes) -> number preserving the key order: big-endian padded slice, then length"""
+    return "%x" % (int.from_bytes(k + b"\0" * (8 - len(k)), "big") * 16 + len(k))
+
+
+def border_history(r, scen):
+    """the observed history of a single-border run in border_main's input format, or None if not applicable"""
+    keys = [k for k, _ in scen.setup]
+    if any(len(k) > 8 for k in keys) or len(keys) > 8:
+        return None
+    items = ["I " + " ".join("%s %s" % (knum(k), vnum(v.hex())) for k, v in scen.setup)]
+    for step, rest in r.hist:
+        t = rest.split(" ")
+        if t[0] == "inv":
+            kind = t[2]
+            if kind not in ("get", "put", "uput", "rem"):
+                return None
+            k = unhex(t[4])
+            if len(k) > 8:
+                return None
+            if kind in ("put", "uput"):
+                items.append("inv %s %s %s %s" % (t[1], kind, knum(k), vnum(t[5])))
+            else:
+                items.append("inv %s %s %s" % (t[1], kind, knum(k)))
+        elif t[0] == "res":
+            res = " ".join(t[2:])
+            if res.startswith("OK v="):
+                out = "val:" + vnum(res[5:])
+            elif res == "OK":
+                out = "ok"
+            elif res == "WARN_NOT_EXIST":
+                out = "notexist"
+            elif res == "OK_NOT_FOUND":
+                out = "notfound"
+            elif res == "WARN_UNIQUE_RESTRICTION":
+                out = "unique"
+            else:
+                out = "val:0" if "NULLPTR" in res else "ok"
+            items.append("res %s %s" % (t[1], out))
+    return " ; ".join(items)
+
+
+def border_batch(lines, workdir):
+    f = os.path.join(workdir, "border_jobs.txt")
+    with open(f, "w") as fh:
+        fh.write("\n".join(lines) + "\n")
+    rc, out = C.sh([os.path.join(C.BUILD, "border_main"), f], timeout=900, merge=False)
+    return [x.split()[0] for x in out.split("\n") if x.strip()]
+
+
+def run_conc_property(res, tag, want, shapes, kinds, scans, budget_quick, budget_thorough, tie_shapes=("single", "last", "empty"),
+                      strategies_quick=("preempt1",), strategies_thorough=("preempt1", "preempt2", "pct")):
+    """generic flow for a property explored under the scheduler with verified oracles"""
+    pid = res.pid
+    st = C.property_status(pid)
+    C.proof_coverage(res, st)
+    ok, o = C.build_cpp("conc_driver_" + tag, "harness/conc_driver.cpp")
+    if not ok:
+        res.violation("conc_driver does not compile against /repo", dict(kind="build-failure", log=o[-3000:]), nofail=True)
+        return res.finish()
+    for d in ("lin_main", "border_main"):
+        okm, om = C.build_model(d)
+        if not okm:
+            res.violation("model driver does not build", dict(kind="model-build-failure", log=om[-3000:]), nofail=True)
+            return res.finish()
+    binary = os.path.join(C.BUILD, "conc_driver_" + tag)
+    wd = os.path.join(C.BUILD, "run_" + tag)
+    os.makedirs(wd, exist_ok=True)
+    rng = random.Random(res.seed)
+    budget = budget_quick if res.tier == "quick" else budget_thorough
+    strategies = strategies_quick if res.tier == "quick" else strategies_thorough
+    total_runs = 0
+    total_steps = 0
+    distinct = 0
+    viol = []
+    samples = []
+    tie_lines, tie_meta = [], []
+    shape_counts = {}
+    # corpus: stored scenarios with their schedules run first
+    cdir = os.path.join(C.VERIF, "corpus", pid)
+    if os.path.isdir(cdir):
+        for f in sorted(os.listdir(cdir)):
+            if f.endswith(".scen"):
+                txt = open(os.path.join(cdir, f)).read()
+                if txt.startswith("explore"):
+                    # a stored scenario explored exhaustively with one preemption (robust against step renumbering)
+                    sc = scenario_from_text(txt)
+                    n, v, steps, dist, runs = explore_runs(binary, sc, txt.split()[1], wd, 2000, rng, want)
+                    total_runs += n
+                    total_steps += steps
+                    distinct += dist
+                    viol += v
+                    continue
+                r = run_once(binary, txt, wd, 900000 + total_runs)
+                total_runs += 1
+                sc = scenario_from_text(txt)
+                r.lin_jobs = []
+                for (orc, desc) in check_run(r, sc, want):
+                    viol.append((orc, desc, txt, r.schedule))
+                if r.lin_jobs:
+                    for (k, iv, lst), okv in zip(r.lin_jobs, lin_batch(r.lin_jobs, wd)):
+                        if not okv:
+                            viol.append(("lin", "history of key %s not linearizable" % k.hex(), txt, r.schedule))
+    n_scen = 2 if res.tier == "quick" else 8
+    for shape in shapes:
+        for j in range(n_scen):
+            sc = gen_scenario(rng, shape, kinds=kinds, scans=scans,
+                              nthreads=rng.choice([2, 2, 3]), ops_per_thread=rng.choice([1, 2]))
+            for strat in strategies:
+                n, v, steps, dist, runs = explore_runs(binary, sc, strat, wd, budget, rng, want)
+                total_runs += n
+                total_steps += steps
+                distinct += dist
+                viol += v
+                shape_counts[shape] = shape_counts.get(shape, 0) + n
+                if shape in tie_shapes:
+                    for r in runs[:60]:
+                        if r.rc == 0 and r.done:
+                            h = border_history(r, sc)
+                            if h:
+                                tie_lines.append(h)
+                                tie_meta.append((r.text, r.schedule))
+                if len(samples) < 3 and runs:
+                    samples.append(dict(shape=shape, threads=sc.threads, schedule=runs[-1].text.split("\n")[0],
+                                        history=[x[1] for x in runs[-1].hist][:8]))
+    rejected = []
+    if tie_lines:
+        verdicts = border_batch(tie_lines, wd)
+        for vdt, meta in zip(verdicts, tie_meta):
+            if vdt != "ACCEPT":
+                rejected.append((vdt, meta))
+    res.cov.update(
+        programs=total_runs, evaluations=total_runs, distinct_nontrivial=distinct,
+        traces_validated_against_impl=len(tie_lines) - len(rejected),
+        rule="one program = one scenario (prepared tree shape + 1-2 operations per thread, same-key races included) under "
+             "one schedule of the real hooked library; strategies: %s; non-trivial/distinct = distinct schedules "
+             "actually taken (per scenario)" % ",".join(strategies),
+        disagreements_checked=len(viol) + len(rejected), scheduler_steps=total_steps, runs_per_shape=shape_counts,
+        samples=samples, oracles=list(want),
+        histories_replayed_on_model=len(tie_lines))
+    if viol:
+        orc, desc, text, sched = viol[0]
+        res.violation("%s: %s" % (orc, desc[:300]),
+                      dict(kind="conc-" + orc, scenario=replay_text(text, sched), original_mode=text.split("\n")[0],
+                           description=desc[:2000], all=sorted({v[0] for v in viol})))
+    elif rejected or not st["ok"]:
+        what = []
+        if not st["ok"]:
+            what.append("proof obligations no longer check: " + "; ".join(st["broken"][:5]))
+        if rejected:
+            what.append("behavioural inclusion broken: %d real single-border histories cannot be produced by the model BorderDefs" % len(rejected))
+        res.violation("; ".join(what), dict(kind="broken-tie", broken=what,
+                                            scenario=replay_text(rejected[0][1][0], rejected[0][1][1]) if rejected else None),
+                      nofail=True)
+    return res.finish()
+
+
+def scenario_from_text(txt):
+    """rebuild a Scenario (setup / threads / finals) from a scenario file"""
+    setup, threads, finals, st = [], [], [], b"s"
+    for ln in txt.split("\n"):
+        t = ln.split()
+        if not t:
+            continue
+        if t[0] == "setup" and t[1] == "create":
+            st = unhex(t[2])
+        elif t[0] == "setup" and t[1] == "put":
+            setup.append((unhex(t[3]), unhex(t[4])))
+        elif t[0] == "thread":
+            tid = int(t[1])
+            while len(threads) <= tid:
+                threads.append([])
+            threads[tid].append(" ".join(t[2:]))
+        elif t[0] == "final":
+            finals = [unhex(x) for x in t[2:]]
+    return Scenario("corpus", setup, threads, finals, st)
+
+
+def explore_runs(binary, scen, strategy, workdir, budget, rng, want, jobs=16):
+    """like explore, but also returns the runs"""
+    os.makedirs(workdir, exist_ok=True)
+    texts = []
+    nt = len(scen.threads)
+    base = run_once(binary, scen.text("mode preempt first 0 maxsteps 200000"), workdir, 0)
+    N = max(base.steps, 10)
+    runs = [base]
+    if strategy == "preempt1":
+        for first in range(nt):
+            for k in range(1, N + 1):
+                for t in range(nt):
+                    texts.append("mode preempt first %d at %d:%d maxsteps 200000" % (first, k, t))
+    elif strategy == "preempt2":
+        for _ in range(budget):
+            a, b = sorted(rng.sample(range(1, N + 1), 2))
+            texts.append("mode preempt first %d at %d:%d at %d:%d maxsteps 200000" % (
+                rng.randrange(nt), a, rng.randrange(nt), b, rng.randrange(nt)))
+    elif strategy == "pct":
+        for i in range(budget):
+            texts.append("mode pct seed %d depth %d maxsteps 200000" % (rng.getrandbits(30), rng.choice([1, 2, 3])))
+    else:
+        for i in range(budget):
+            texts.append("mode random seed %d stick %.2f maxsteps 200000" % (rng.getrandbits(30), rng.choice([0.5, 0.8, 0.95])))
+    if len(texts) > budget:
+        rng.shuffle(texts)
+        texts = texts[:budget]
+
+    def one(i_t):
+        i, t = i_t
+        return run_once(binary, scen.text(t), workdir, i + 1)
+    with ThreadPoolExecutor(max_workers=jobs) as ex:
+        runs += list(ex.map(one, list(enumerate(texts))))
+    viol = []
+    total_steps = 0
+    distinct = set()
+    jobs_l = []
+    for r in runs:
+        total_steps += r.steps
+        distinct.add(tuple(r.schedule))
+        r.lin_jobs = []
+        for (orc, desc) in check_run(r, scen, want):
+            viol.append((orc, desc, r.text, r.schedule))
+        for j in r.lin_jobs:
+            jobs_l.append((r, j))
+    if jobs_l:
+        verdicts = lin_batch([j for _, j in jobs_l], workdir)
+        for (r, (k, iv, lst)), okv in zip(jobs_l, verdicts):
+            if not okv:
+                viol.append(("lin", "history of key %s is not linearizable: init=%s ops=%s" % (k.hex(), iv, lst),
+                             r.text, r.schedule))
+    return len(runs), viol, total_steps, len(distinct), runs
+
+
+# ------------------------------------------------------------------ lock-order graph (C09)
+def lock_graph_check(out):
+    """from the access log of one run: the held->awaited edges between lock words; a cycle is a lock-order
+    inversion (potential deadlock), found even when this schedule did not deadlock.  Returns (n_edges, cycle|None)"""
+    held = {}
+    edges = set()
+    LOCKBIT = 1 << 29
+    for ln in out.split("\n"):
+        if not ln.startswith("E "):
+            continue
+        t = ln.split(" ")
+        tid, kind, obj, addr, val, ok = int(t[2]), int(t[3]), int(t[4]), t[5], int(t[6], 16), int(t[7])
+        if tid < 0 or obj not in (1, 9):
+            continue
+        hs = held.setdefault(tid, [])
+        acquire = release = wait = False
+        if obj == 1:
+            if kind == 2 and ok == 2:
+                acquire = True
+            elif kind == 1 and ok == 1 and (val & LOCKBIT):
+                acquire = True            # a freshly created node is born holding a copy of a locked word
+            elif kind == 2 and ok == 1 and not (val & LOCKBIT) and addr in hs:
+                release = True
+            elif kind == 3 and ok == -1 and addr not in hs and hs:
+                wait = True
+        else:
+            if kind == 2 and ok == 1:
+                acquire = True
+            elif kind == 1 and ok == 1 and val == 0 and addr in hs:
+                release = True
+            elif kind == 3 and ok == -1 and addr not in hs and hs:
+                wait = True
+        if acquire or wait:
+            for h in hs:
+                if h != addr:
+                    edges.add((h, addr))
+            if acquire and addr not in hs:
+                hs.append(addr)
+        if release:
+            hs.remove(addr)
+    # cycle detection
+    adj = {}
+    for a, b in edges:
+        adj.setdefault(a, set()).add(b)
+    color = {}
+
+    def dfs(u, path):
+        color[u] = 1
+        for v in adj.get(u, ()):
+            if color.get(v) == 1:
+                return path + [u, v]
+            if v not in color:
+                r = dfs(v, path + [u])
+                if r:
+                    return r
+        color[u] = 2
+        return None
+    for u in list(adj):
+        if u not in color:
+            r = dfs(u, [])
+            if r:
+                return len(edges), r
+    return len(edges), None
